@@ -32,7 +32,9 @@ func (mh *MultiHasher) Size() int {
 
 // Reset resets the MultiHasher to its initial state.
 func (mh *MultiHasher) Reset() {
-	mh.hashes[0].Reset()
+	for _, h := range mh.hashes {
+		h.Reset()
+	}
 }
 
 // Write writes the given data to the MultiHasher.
@@ -42,12 +44,15 @@ func (mh *MultiHasher) Write(p []byte) (int, error) {
 
 // Sum computes the final hash by piping output from each hash to the next in the chain,
 // returning the result of appending the final hash to b. If b is nil, it simply returns
-// the finalized hash.
+// the finalized hash. Like any hash.Hash, Sum does not change the underlying state: it can
+// be called repeatedly, and more data can be written afterwards.
 func (mh *MultiHasher) Sum(b []byte) []byte {
-	var hashed []byte
-	for _, h := range mh.hashes {
+	// Only the first hash carries the written data. Its Sum does not disturb it.
+	hashed := mh.hashes[0].Sum(nil)
+	for _, h := range mh.hashes[1:] {
+		h.Reset()
 		h.Write(hashed)
 		hashed = h.Sum(nil)
 	}
-	return hashed
+	return append(b, hashed...)
 }
